@@ -14,7 +14,10 @@ RULE = ('Generated (start, end, pre_market, post_market) with end time-of-day >=
         'uniform over 1990-2040 plus edge dates (leap days, year ends, month ends on weekends, each weekday), '
         'durations {0..8} u U(9,70) u U(71,800) days, plus end<start cases that must be rejected. Oracle: event '
         'list rebuilt from datetime.date arithmetic, compared for equality, strictly increasing, and identical when '
-        'the same engine object is iterated a second time. Distinct = '
+        'the same engine object is iterated a second time; a sixth of the ranges are written in another time zone '
+        '(New York, Tokyo, London; local and UTC calendar day agree) and must give the same UTC events; part '
+        '`session`: the clock a BacktestTradingSession iterates, with a burn-in date inside, at the edges of or after '
+        'the range, equals the calendar for (start, end). Distinct = '
         'distinct case JSON; non-trivial = the range spans a weekend with >=2 business days, or is a single day, '
         'or has no business day, or crosses a month/year/leap-day boundary, or is an end<start rejection.')
 ASSUMPTIONS = [
@@ -24,9 +27,50 @@ ASSUMPTIONS = [
 ]
 
 
-def run_case(case):
+def run_session_clock(case):
+    """The clock a trading session actually iterates (session.sim_engine), with and without a burn-in date."""
     q = load()
     start, end = cal.ts6(case['start']), cal.ts6(case['end'])
+    uni = q.StaticUniverse(['EQ:A'])
+    kw = {}
+    if case['burn_in'] is not None:
+        kw['burn_in_dt'] = cal.ts6(case['burn_in'])
+    if case['rebalance'] == 'weekly':
+        kw['rebalance_weekday'] = 'WED'
+    bt = q.BacktestTradingSession(start, end, uni, q.FixedSignalsAlphaModel({'EQ:A': 1.0}), rebalance=case['rebalance'], long_only=True, cash_buffer_percentage=0.05,
+                                  data_handler=q.BacktestDataHandler(uni, data_sources=[]), **kw)
+    got = [(e.ts, e.event_type) for e in bt.sim_engine]
+    exp = cal.clock_events(cal.date3(case['start']), cal.date3(case['end']), False, False)
+    if got != exp:
+        k = next((i for i, (g, e) in enumerate(zip(got, exp)) if g != e), min(len(got), len(exp)))
+        raise Violation('the session clock for %s..%s (burn-in %s) differs from the calendar at event %d: got %s '
+                        'expected %s (lengths %d/%d)' % (start, end, case['burn_in'], k, got[k] if k < len(got) else None,
+                                                         exp[k] if k < len(exp) else None, len(got), len(exp)))
+    cls = ['session_clock', 'burn_in' if case['burn_in'] is not None else 'no_burn_in']
+    return Result(cls, nontrivial=case['burn_in'] is not None and len(got) > 2, info={'events': len(got)})
+
+
+@st.composite
+def session_cases(draw):
+    start, end = draw(gen.ranges(dur=gen.short_durations, start_tod=st.sampled_from([(0, 0, 0), (14, 30, 0), (9, 0, 0)])))
+    d0, d1 = cal.date3(start), cal.date3(end)
+    n = (d1 - d0).days
+    burn = None
+    if draw(st.sampled_from([True, True, False])):
+        b = d0 + D.timedelta(days=draw(st.integers(0, n + 3)))
+        burn = [b.year, b.month, b.day] + draw(st.sampled_from([[0, 0, 0], [14, 30, 0], [21, 0, 0]]))
+    return {'start': start, 'end': end, 'burn_in': burn,
+            'rebalance': draw(st.sampled_from(['daily', 'weekly', 'end_of_month', 'buy_and_hold']))}
+
+
+def _ts(v6, tz):
+    return cal.ts6(v6) if tz is None else pd.Timestamp(*v6, tz=tz)
+
+
+def run_case(case):
+    q = load()
+    tz = case.get('tz')
+    start, end = _ts(case['start'], tz), _ts(case['end'], tz)
     if case.get('invalid'):
         try:
             q.DailyBusinessDaySimulationEngine(start, end, pre_market=case['pre'], post_market=case['post'])
@@ -49,6 +93,8 @@ def run_case(case):
         raise Violation('iterating the same engine twice gives %d then %d events' % (len(got), len(again)))
     cls = gen.range_classes(case['start'], case['end'])
     cls.append('flags_%d%d' % (case['pre'], case['post']))
+    if tz:
+        cls.append('range_given_in_another_time_zone')
     nt = any(c in cls for c in ('spans_weekend', 'single_day', 'no_business_day', 'crosses_month',
                                 'crosses_year', 'contains_leap_day'))
     return Result(cls, nontrivial=nt, info={'events': len(got)})
@@ -58,6 +104,16 @@ def run_case(case):
 def cases(draw):
     start, end = draw(gen.ranges())
     case = {'start': start, 'end': end, 'pre': draw(st.booleans()), 'post': draw(st.booleans())}
+    if draw(st.sampled_from([False] * 5 + [True])):
+        # the same instants written in another zone; times of day chosen so that the local and the UTC calendar day agree
+        tz = draw(st.sampled_from(['America/New_York', 'Asia/Tokyo', 'Europe/London']))
+        lo, hi = {'America/New_York': (5, 18), 'Asia/Tokyo': (10, 23), 'Europe/London': (2, 22)}[tz]
+        h0 = draw(st.integers(lo, hi))
+        h1 = draw(st.integers(h0, hi))
+        case['start'] = start[:3] + [h0, draw(st.sampled_from([0, 30])), 0]
+        case['end'] = end[:3] + [h1, case['start'][4], 0]
+        case['tz'] = tz
+        return case
     if draw(st.sampled_from([False] * 19 + [True])):
         s, e = cal.ts6(start), cal.ts6(end)
         if e > s:
@@ -86,4 +142,5 @@ def sweep(tier):
 PARTS = [
     Part('random', 'hyp', run_case, strategy=cases(), quick=6000, thorough=320000, quick_shards=4),
     Part('sweep', 'sweep', run_case, sweep=sweep, quick_shards=4, exhaustive=True),
+    Part('session', 'hyp', run_session_clock, strategy=session_cases(), quick=600, thorough=20000, quick_shards=4),
 ]
